@@ -34,7 +34,9 @@ Print Assumptions report_honest.
 
 (* A non-OK completion is reported with PreferBeingIdle, and PreferBeingIdle
    stays set on every later request until readiness was re-checked
-   successfully (or the scheduler forced a new action onto the worker). *)
+   successfully (or the scheduler forced a new action onto the worker); an
+   idle worker asks for work (PreferBeingIdle = false) only in a Run whose
+   readiness check has just succeeded. *)
 Theorem idle_after_failure : forall t0 evs,
   trace_ok chk_idle_after_failure (trace (init t0) evs) = true.
 Proof. exact idle_after_failure_holds. Qed.
@@ -59,6 +61,13 @@ Theorem client_trace_ok : forall t0 evs,
   trace_ok chk_all (trace (init t0) evs) = true.
 Proof. exact client_trace_ok_holds. Qed.
 Print Assumptions client_trace_ok.
+
+(* The same on traces (evaluated on the implementation by Corr.v): whenever
+   the snapshot after a step has until = nil, the monitor knows of no running
+   executor. *)
+Theorem until_nil_means_idle : forall t0 evs, end_ok (trace (init t0) evs) = true.
+Proof. exact until_nil_means_idle_holds. Qed.
+Print Assumptions until_nil_means_idle.
 
 (* In every reachable state: if the scheduler cannot think the worker is
    executing (until = nil), no action is executing — the slot is empty or its
@@ -145,8 +154,20 @@ Example early_termination_rejected :
 Proof. vm_compute. reflexivity. Qed.
 
 Example soliciting_in_shutdown_rejected :
-  chk_trace chk_all mon_init [ bad_item (rn true 50 RpcErr) [OSync RIdle false true; ORet false ESync] ]
+  chk_trace chk_all mon_init [ bad_item (rn true 50 RpcErr) [OReady; OSync RIdle false true; ORet false ESync] ]
   = "solicits-work-during-shutdown"%string.
+Proof. vm_compute. reflexivity. Qed.
+
+Example until_nil_while_executing_rejected :
+  end_trace mon_init
+    [ mkItem (rn false 0 (Reply (Some 10) (DExec 1))) [OReady; OSync RIdle false true; OStart 0 1 false; ORet false ENone]
+             (mkObs None 10 true false) ]
+  = "until-nil-while-executing"%string.
+Proof. vm_compute. reflexivity. Qed.
+
+Example soliciting_without_readiness_rejected :
+  chk_trace chk_all mon_init [ bad_item (rn false 50 RpcErr) [OTimer 0; OSync RIdle false true; ORet false ESync] ]
+  = "solicits-work-without-readiness-check"%string.
 Proof. vm_compute. reflexivity. Qed.
 
 Example no_idle_after_failure_rejected :
